@@ -12,8 +12,8 @@ from ledger import vdrive
 CLASSES = {"null", "emptyString", "negative", "zero", "gtInt64", "gtUint64", "negativeString", "hugeString", "notANumberString", "emptyObject",
            "emptyArray", "boolean", "longString", "shortAddress", "badHexAddress", "unknownCurrency", "nullValueAmount", "float", "delete"}
 MC = dict(Classes=CLASSES, Paths={"check", "honest", "direct"}, Outcomes={"reject", "accept"})
-FAMILIES = ["benign", "stake", "deleg", "alleg", "eth", "erc20", "gov", "ons", "olvm"]
-HISTORY_FAMILIES = ["base", "stake", "deleg", "alleg", "eth", "eth5", "valset", "failing", "gov", "govmix", "ons", "onsmix", "olvm"]
+FAMILIES = ["benign", "stake", "deleg", "alleg", "eth", "erc20", "gov", "ons", "olvm", "bid"]
+HISTORY_FAMILIES = ["base", "stake", "deleg", "alleg", "eth", "eth5", "valset", "failing", "gov", "govmix", "ons", "onsmix", "olvm", "erc20", "bid", "bidmix"]
 
 
 def run(ctx, replay):
